@@ -618,6 +618,19 @@ def gen_conc(repo, build):
                 fn = enclosing_function(raw, m.start())
                 if fn is not None:
                     writers.setdefault(n, set()).add(fn)
+    # the library itself never reconfigures the process: calls to the switch functions from inside library code
+    reconf = []
+    for path in srcs:
+        if not path.endswith(".c"):
+            continue
+        raw = open(path).read()
+        raw = re.sub(r"/\*.*?\*/", lambda m_: " " * len(m_.group(0)), raw, flags=re.S)
+        raw = re.sub(r"//[^\n]*", lambda m_: " " * len(m_.group(0)), raw)
+        for m in re.finditer(r"\b(jwt_set_crypto_ops_t|jwt_set_crypto_ops|jwt_set_alloc|jwt_init)\s*\(", raw):
+            fn = enclosing_function(raw, m.start())
+            if fn is not None and fn != m.group(1):
+                reconf.append((m.group(1), fn))
+    rc_txt = ", ".join('("%s", "%s")' % t for t in sorted(set(reconf)))
     # queries on a (shared) keyring must not write it: list mutations, stores through pointers, allocation
     jsrc = open(os.path.join(repo, "libjwt/jwks.c")).read()
     jsrc = re.sub(r"/\*.*?\*/", " ", jsrc, flags=re.S)
@@ -659,10 +672,14 @@ callbacks make on a shared keyring), the number of list mutations, allocations/f
 stores through a pointer or member in its body -/
 def keyringQueryWrites : List (String × Nat) := [{qw}]
 
+/-- calls to the process-wide switches (`jwt_set_crypto_ops(_t)`, `jwt_set_alloc`, `jwt_init`) from inside
+library functions other than themselves: (callee, caller) -/
+def internalReconfigCalls : List (String × String) := [{rc_txt}]
+
 end Jwt.Generated
 """
     return "ConcFacts.lean", text, {"statics": writable, "writers": {k: sorted(v) for k, v in writers.items()}, "table_writes": table_writes, "casts": casts,
-                                    "query_writes": qwrites}
+                                    "query_writes": qwrites, "internal_reconfig_calls": sorted(set(reconf))}
 
 
 def gen_ecframe(repo, build):
